@@ -2607,10 +2607,8 @@ class Parameters:
         # would need to handle the params() cache as well
         # (which is tricky but important for startup speed).
         cls = self_.cls
-        type.__setattr__(cls, param_name, param_obj)
-        ParameterizedMetaclass._initialize_parameter(cls, param_name, param_obj)
-        # delete cached params() of the class and of its subclasses
-        cls._clear_parameters_cache()
+        # (also drops the cached params() of the class and of its subclasses)
+        cls._install_parameter(param_name, param_obj)
 
     # PARAM3_DEPRECATION
     @_deprecated(extra_msg="Use instead `.param.add_parameter`", warning_cat=_ParamFutureWarning)
@@ -4690,11 +4688,30 @@ class ParameterizedMetaclass(type):
                 mcs.__dict__[attribute_name].__set__(None,value)
 
         else:
-            type.__setattr__(mcs,attribute_name,value)
-
             if isinstance(value,Parameter):
-                mcs._initialize_parameter(attribute_name,value)
-                mcs._clear_parameters_cache()
+                mcs._install_parameter(attribute_name,value)
+            else:
+                type.__setattr__(mcs,attribute_name,value)
+
+    def _install_parameter(mcs, param_name, param):
+        """
+        Make param the Parameter param_name of this class. A Parameter
+        that cannot be installed (e.g. the default it inherits is invalid
+        for it) leaves the class as it was.
+        """
+        missing = object()
+        previous = mcs.__dict__.get(param_name, missing)
+        type.__setattr__(mcs, param_name, param)
+        try:
+            mcs._initialize_parameter(param_name, param)
+        except BaseException:
+            if previous is missing:
+                type.__delattr__(mcs, param_name)
+            else:
+                type.__setattr__(mcs, param_name, previous)
+            raise
+        finally:
+            mcs._clear_parameters_cache()
 
     def _clear_parameters_cache(mcs):
         """
